@@ -404,12 +404,17 @@ class ProgGen:
         n_banks = k["n_banks"] if k["n_banks"] is not None else rng.choice([0, 0, 1, 2, 3])
         letters_in = rng.sample([c for c in LOWER if c != "p"], n_banks)
         letters_out = rng.sample([c for c in UPPER if c != "P"], n_banks)
+        if n_banks >= 2 and rng.random() < 0.3:
+            # two banks sharing an output prefix letter (and hence stall_X / bubble_X): legal as long
+            # as their register names differ
+            letters_out[1] = letters_out[0]
         banks = []
-        for li, lo in zip(letters_in, letters_out):
+        for bi, (li, lo) in enumerate(zip(letters_in, letters_out)):
             regs = []
+            shared = letters_out.count(lo) > 1 and bi == 1
             for j in range(rng.randint(1, 4)):
                 w = rng.choice(WIDTHS)
-                rname = "r%d" % j if rng.random() < 0.7 else "reg_%s%d" % ("y" * rng.randint(1, 30), j)
+                rname = ("s%d" if shared else "r%d") % j if rng.random() < 0.7 else ("sreg_%s%d" if shared else "reg_%s%d") % ("y" * rng.randint(1, 30), j)
                 d = rng.getrandbits(min(w, 20))
                 dt = str(d) if rng.random() < 0.6 else "0x%x" % d
                 if rng.random() < 0.2 and w < 127:
@@ -430,7 +435,7 @@ class ProgGen:
         tasks += [("wire",)] * k["n_wires"]
         # control signals of the extra banks: assigned somewhere in the middle, so that later
         # wires (and other banks' control signals) can read them in the same cycle
-        for li, lo, regs in banks:
+        for lo in sorted(set(lo for li, lo, regs in banks)):
             for sig in ("stall", "bubble"):
                 if rng.random() < 0.7:
                     tasks.append(("ctl", "%s_%s" % (sig, lo)))
